@@ -110,6 +110,11 @@ type Interp struct {
 	inInit   bool
 	unwindDefault int
 	opt         *PathOpts
+	freshPick   bool
+	tag         string
+	syncClocks  map[interface{}]*vclock
+	raceMetas   map[interface{}]*raceMeta
+	raceSeen    map[string]bool
 	sleep       map[*GoR]bool
 	enumQueries int
 	curModel    Model
@@ -535,6 +540,9 @@ func (ip *Interp) decodeModel(m Model) map[string]interface{} {
 
 // violation records a counterexample; m must satisfy the path condition and the failing condition.
 func (ip *Interp) violation(kind, label, msg string, m Model) {
+	if kind != "assert" && ip.tag != "" {
+		label += " " + ip.tag // scenario tag set by the harness: each scenario's counterexample gets its own native replay
+	}
 	v := &Violation{Label: label, Kind: kind, Msg: msg, Trace: append([]int{}, ip.trace...)}
 	if ip.cur != nil && ip.cur.curInstr != nil {
 		v.Pos = ip.prog.Fset.Position(ip.cur.curInstr.Pos()).String()
@@ -899,7 +907,7 @@ func (ip *Interp) exec(fr *Frame, ins ssa.Instruction) {
 		fr.locals[x] = ip.binop(x.Op, ip.get(fr, x.X), ip.get(fr, x.Y), x.X.Type(), x.Y.Type())
 	case *ssa.Store:
 		p := ip.get(fr, x.Addr).(Ptr)
-		ip.sharedAccess(p.c)
+		ip.cellWrite(p.c)
 		ip.store(p.c, ip.get(fr, x.Val))
 	case *ssa.FieldAddr:
 		p := ip.get(fr, x.X).(Ptr)
@@ -973,6 +981,7 @@ func (ip *Interp) exec(fr *Frame, ins ssa.Instruction) {
 		if m == nil {
 			ip.goPanic("assignment to entry in nil map")
 		}
+		ip.accessWrite(m, "a map")
 		ip.mapSet(m, ip.get(fr, x.Key), ip.get(fr, x.Value))
 	case *ssa.Range:
 		fr.locals[x] = ip.makeRange(ip.get(fr, x.X))
@@ -1011,7 +1020,7 @@ func (ip *Interp) unop(fr *Frame, x *ssa.UnOp) Value {
 	switch x.Op {
 	case token.MUL: // load
 		p := v.(Ptr)
-		ip.sharedAccess(p.c)
+		ip.cellRead(p.c)
 		return ip.load(p.c)
 	case token.NOT:
 		return ip.tb.Not(v.(*Term))
@@ -1079,6 +1088,9 @@ func (ip *Interp) lookup(fr *Frame, x *ssa.Lookup) Value {
 		}
 		return ip.tb.BVConst(uint64(b.s[i]), 8)
 	case *MapObj:
+		if b != nil {
+			ip.accessRead(b, "a map")
+		}
 		key := ip.get(fr, x.Index)
 		var valT types.Type
 		if b != nil {
